@@ -15,7 +15,7 @@ func init() {
 		"(dawg.AnagramSearcher).AllowStep", "(dawg.AnagramSearcher).AllowWord", "(dawg.AnagramSearcher).Chosen"}
 	register(&propDef{
 		id:          "C13",
-		explanation: "Decides the structural part of the last sentence ('a search leaves the Dawg unchanged ...'): PURE ((*Dawg).Search, with Searcher calls resolved by module-restricted CHA to both implementations, writes nothing reachable from the Dawg), SEARCHER-RO (AllowStep, AllowWord and Chosen of both searchers write nothing reachable from the receiver, including through the counts/currPath slices a value receiver still shares), STEP-ONLY (inside Search the only instructions that may write searcher memory are the interface calls Step and Backstep), BALANCE (on every path to a return each searcher has received as many Backstep as Step calls: a local stack is pushed exactly once per complete Step pass over the searchers, popped exactly once per Backstep pass, nothing else changes it, and every return is guarded by its being empty); NARROW and MASKWIDTH (narrowing integer conversions, and the shift counts of one-bit masks indexed by a position, are proved to fit: a 64-bit mask of blank positions forgets position 64) FIXEDARRAY (no fixed-size scratch array of package dawg is indexed by a counter that is not proved to stay in range), COUNTERWIDTH (no tally kept in an 8/16-bit cell is bumped without a proof that it stays in range) and SORTLESS (the comparator of every sort.Slice call in package dawg indexes the slice being sorted and no other: sorted with a comparator over the unsorted original, equal letters are not adjacent, the anagram searcher's count table gets several entries for one letter, and Backstep returns a letter to the first of them only, so a search does not leave the searcher as it found it). Does not decide the result set, its order, the ranks, or that Backstep exactly undoes Step.",
+		explanation: "Decides the structural part of the last sentence ('a search leaves the Dawg unchanged ...'): PURE ((*Dawg).Search, with Searcher calls resolved by module-restricted CHA to both implementations, writes nothing reachable from the Dawg), SEARCHER-RO (AllowStep, AllowWord and Chosen of both searchers write nothing reachable from the receiver, including through the counts/currPath slices a value receiver still shares), STEP-ONLY (inside Search the only instructions that may write searcher memory are the interface calls Step and Backstep), BALANCE (on every path to a return each searcher has received as many Backstep as Step calls: a local stack is pushed exactly once per complete Step pass over the searchers, popped exactly once per Backstep pass, nothing else changes it, and every return is guarded by its being empty); NARROW and MASKWIDTH (narrowing integer conversions, and the shift counts of one-bit masks indexed by a position, are proved to fit: a 64-bit mask of blank positions forgets position 64) FIXEDARRAY (no fixed-size scratch array of package dawg is indexed by a counter that is not proved to stay in range), COUNTERWIDTH (no tally kept in an 8/16-bit cell is bumped without a proof that it stays in range) and SORTLESS (the comparator of every sort.Slice call in package dawg indexes the slice being sorted and no other: sorted with a comparator over the unsorted original, equal letters are not adjacent, the anagram searcher's count table gets several entries for one letter, and Backstep returns a letter to the first of them only, so a search does not leave the searcher as it found it) and FRESHROOT (the root a re-initialised builder starts from shares no memory with its previous state, so building the next Dawg cannot edit one that is being searched) and OWN-PATTERN (the searchers' constructors keep a copy of the pattern / letters: the value they return reaches no memory of the caller's slice, so a repeated search matches the same pattern). Does not decide the result set, its order, the ranks, or that Backstep exactly undoes Step.",
 		notDecided:  []string{"that Search returns exactly the matching words in lexicographic order with correct ranks", "that Backstep restores exactly what Step changed (letter accounting)", "that Backstep exactly undoes one Step (BALANCE only counts calls)"},
 		assumptions: []string{"searchers passed to Search are the module's PatternSearcher/AnagramSearcher (closed world); a user-defined Searcher is outside the claim"},
 		run: func(c *Ctx, tier string) []*RuleResult {
@@ -37,7 +37,21 @@ func init() {
 			cw := ruleCounterWidth(c, "dawg")
 			sl := ruleSortLess(c, "dawg")
 			sl.MinInst = 2
-			return []*RuleResult{pure, ro, so, bal, nw, mw, fa, cw, sl}
+			// a Dawg being searched is not edited by a builder that goes on to build the next one
+			fr := &RuleResult{Rule: "FRESHROOT", Doc: "the root a (re-)initialised builder starts from shares no memory with its previous state: building the next Dawg cannot edit one that was handed out and is being searched", MinInst: 1}
+			ruleFreshRoot(c, fr, "(*dawg.Builder).Initialise", "Dawg")
+			op := &RuleResult{Rule: "OWN-PATTERN", Doc: "a searcher keeps its own copy of the pattern / letters it was built from: the value returned by the constructor reaches no memory of the caller's slice, so re-using that buffer cannot change what a later search (or a repeated one) matches", MinInst: 2}
+			for _, n := range []string{"dawg.NewPatternSearcher", "dawg.NewAnagramSearcher"} {
+				fn := c.Fn(n)
+				var slices []int
+				for i, p := range fn.Params {
+					if _, ok := p.Type().Underlying().(*types.Slice); ok {
+						slices = append(slices, i)
+					}
+				}
+				freshResult(c, op, fn, 0, slices, nil, "does not alias the caller's slice")
+			}
+			return []*RuleResult{pure, ro, so, bal, nw, mw, fa, cw, sl, fr, op}
 		},
 		controls: func(ctl *Ctx) []*RuleResult {
 			ro := &RuleResult{Rule: "SEARCHER-RO"}
@@ -60,7 +74,10 @@ func init() {
 			mw := ruleMaskWidth(ctl, inFiles("balctl.go"))
 			fa := ruleFixedArray(ctl, "balctl")
 			cw := ruleCounterWidth(ctl, "livectl")
-			return []*RuleResult{ro, so, bal, nw, mw, fa, cw, ruleSortLess(ctl, "balctl")}
+			fr := &RuleResult{Rule: "FRESHROOT"}
+			ruleFreshRoot(ctl, fr, "(*sealctl.B5).BadInitKeepsSlices", "node")
+			ruleFreshRoot(ctl, fr, "(*sealctl.B5).GoodInit", "node")
+			return []*RuleResult{ro, so, bal, nw, mw, fa, cw, ruleSortLess(ctl, "balctl"), fr}
 		},
 	})
 }
